@@ -294,7 +294,7 @@ fn run_case<T>(check: &(impl Fn(&T) -> CaseResult + ?Sized), value: &T) -> CaseR
     if let Err(msg) = &result {
         if ENVIRONMENT_ERRORS.iter().any(|p| msg.contains(p)) {
             println!("INCONCLUSIVE: environment error inside a case: {msg}");
-            std::process::exit(2);
+            std::process::exit(if VIOLATION_PRINTED.load(Ordering::SeqCst) { 1 } else { 2 });
         }
     }
     result
@@ -487,6 +487,7 @@ impl Ctx {
         };
         println!("--- violation in {} part {}: {}", self.id, part, message);
         println!("VIOLATION property={} replay={}", self.id, path.display());
+        VIOLATION_PRINTED.store(true, Ordering::SeqCst);
     }
 
     /// Generated part. `strategy` is a factory so that every worker thread builds its own.
@@ -779,6 +780,7 @@ impl Ctx {
         self.violations += 1;
         println!("--- violation in {} part {}: {}", self.id, part, message);
         println!("VIOLATION property={} replay={}", self.id, replay.display());
+        VIOLATION_PRINTED.store(true, Ordering::SeqCst);
     }
 
     pub fn violations(&self) -> u32 {
@@ -888,6 +890,10 @@ pub fn harness_error(msg: &str) -> ! {
 
 /// Backstop for checks that use real worker threads: if `limit` passes the process exits 2 with
 /// `INCONCLUSIVE` (never a violation). Returns a guard; dropping it disarms the watchdog.
+/// Set once a `VIOLATION` line was printed: a later watchdog/environment abort must not turn the
+/// exit status of a run that already reported a violation into "inconclusive".
+pub static VIOLATION_PRINTED: AtomicBool = AtomicBool::new(false);
+
 pub struct Watchdog {
     armed: std::sync::Arc<AtomicBool>,
 }
@@ -907,7 +913,7 @@ impl Watchdog {
             }
             if flag.load(Ordering::SeqCst) {
                 println!("INCONCLUSIVE: watchdog fired after {limit:?} in {what}");
-                std::process::exit(2);
+                std::process::exit(if VIOLATION_PRINTED.load(Ordering::SeqCst) { 1 } else { 2 });
             }
         });
         Watchdog { armed }
